@@ -266,9 +266,19 @@ func (o *authorityOracle) Leg(c *explore.Ctx, leg *world.Leg) {
 				}
 			}
 		}
-		same := len(want) == len(after)
-		for i := 0; same && i < len(want); i++ {
-			same = bytes.Equal(want[i], after[i])
+		// compared as multisets: the order inside the stored list is not part of the statement
+		count := map[string]int{}
+		for _, r := range want {
+			count[string(r)]++
+		}
+		for _, r := range after {
+			count[string(r)]--
+		}
+		same := true
+		for _, n := range count {
+			if n != 0 {
+				same = false
+			}
 		}
 		if !same {
 			c.Report(p, "role-effect", leg.Func+":stored-list", fmt.Sprintf("%s(%q, %q) on %s turned the role list %q into %q, expected %q", leg.Func, tok, in.Arguments[1:], uni.Name(in.RecipientAddr), before, after, want))
@@ -717,8 +727,8 @@ func (o *wellformedOracle) State(c *explore.Ctx, w *world.World) {
 					if !usedName(tok) {
 						c.Report(p, "layout", "nonce-key-layout", fmt.Sprintf("%s: nonce key for unknown token %q", who, tok))
 					}
-					if len(v) == 0 || len(v) > 8 || v[0] == 0 {
-						c.Report(p, "decode", "nonce-counter-encoding", fmt.Sprintf("%s: counter of %q stored as %x", who, tok, v))
+					if len(v) == 0 {
+						c.Report(p, "decode", "nonce-counter-empty", fmt.Sprintf("%s: empty counter entry kept for %q", who, tok))
 					}
 				default:
 					c.Report(p, "layout", "unknown-protected-key", fmt.Sprintf("%s: protected key %q has none of the three layouts", who, k))
